@@ -121,22 +121,37 @@ static int fileGet(MPT_INTERFACE(convertable) *conv, MPT_TYPE(type) type, void *
 		return d->type;
 	}
 	if (!d->type) {
+		char buf[256];
 		size_t len;
 		switch (type) {
-		  case 'd': ret = fscanf(d->fd, "%lf",      (double *)   d->val); len = sizeof(double);   break;
-		  case 'f': ret = fscanf(d->fd, "%f",       (float *)    d->val); len = sizeof(float);    break;
-		  case 't': ret = fscanf(d->fd, "%" SCNu64, (uint64_t *) d->val); len = sizeof(uint64_t); break;
-		  case 'x': ret = fscanf(d->fd, "%" SCNi64, (int64_t *)  d->val); len = sizeof(int64_t);  break;
-		  case 'u': ret = fscanf(d->fd, "%" SCNu32, (uint32_t *) d->val); len = sizeof(uint32_t); break;
-		  case 'i': ret = fscanf(d->fd, "%" SCNi32, (int32_t *)  d->val); len = sizeof(int32_t);  break;
-		  case 'q': ret = fscanf(d->fd, "%" SCNu16, (uint16_t *) d->val); len = sizeof(uint16_t); break;
-		  case 'n': ret = fscanf(d->fd, "%" SCNi16, (int16_t *)  d->val); len = sizeof(int16_t);  break;
-# if __STDC_VERSION__ >= 199901L
-		  case 'y': ret = fscanf(d->fd, "%" SCNu8,  (uint8_t *)  d->val); len = sizeof(uint8_t);  break;
-		  case 'b': ret = fscanf(d->fd, "%" SCNi8,  (int8_t *)   d->val); len = sizeof(int8_t);   break;
-#endif
-		  case 'c': ret = fscanf(d->fd, "%c",       (char *)     d->val); len = sizeof(char);     break;
+		  case 'd': len = sizeof(double);   break;
+		  case 'f': len = sizeof(float);    break;
+		  case 't': len = sizeof(uint64_t); break;
+		  case 'x': len = sizeof(int64_t);  break;
+		  case 'u': len = sizeof(uint32_t); break;
+		  case 'i': len = sizeof(int32_t);  break;
+		  case 'q': len = sizeof(uint16_t); break;
+		  case 'n': len = sizeof(int16_t);  break;
+		  case 'y': len = sizeof(uint8_t);  break;
+		  case 'b': len = sizeof(int8_t);   break;
+		  case 'c': len = sizeof(char);     break;
 		  default: return MPT_ERROR(BadType);
+		}
+		if (type == 'c') {
+			ret = fscanf(d->fd, "%c", (char *) d->val);
+		}
+		/* numbers are converted like any other numeric text:
+		 * range checked, never wrapped or saturated */
+		else if ((ret = fscanf(d->fd, "%255s", buf)) > 0) {
+			ret = mpt_convert_number(buf, type, d->val);
+			/* value out of range for type */
+			if (ret == MPT_ERROR(BadValue)) {
+				return ret;
+			}
+			/* no number */
+			if (ret < 0) {
+				ret = 0;
+			}
 		}
 		if (!ret) {
 			d->type = -1;
